@@ -19,4 +19,5 @@ func extractRest(p *pkgInfo, repo string, t *Tables) {
 
 func emitRest(dir string, t *Tables) {
 	emitRules(dir, t)
+	emitCp037(dir)
 }
